@@ -127,6 +127,6 @@ Definition check (c : case) : bool :=
                             (nibbles_of_bytes (ub e), nibbles_of_bytes (ub p),
                              map (fun kh => (nibbles_of_bytes (ub (fst kh)), ub (snd kh))) l)) listing) &&
     (* the specification, from scratch on the database the history denotes *)
-    leqb (db_root blake2b_256 (apply_commits [] us)) (last roots ZERO_HASH)
+    leqb (db_root blake2b_256 FUEL (apply_commits [] us)) (last roots ZERO_HASH)
   | _ => false
   end.
